@@ -1,7 +1,446 @@
-(* C20 - command-line tools compose; placeholder until the path/URL theorems land. *)
-From WP Require Import Base.Prelude Model.PathUrl.
+(* C20 - command-line tools compose: gen-bundle's directory walk.
+
+   "a bundle produced by gen-bundle from a directory ... contains, for every
+   regular file, exactly one exchange whose URL is the base URL joined with the
+   file's percent-encoded relative path and whose body is the file's bytes (a
+   file named index.html being delivered at its directory's slash URL, with its
+   own URL redirecting there) ... No file name ... makes a tool emit an artifact
+   the downstream tool rejects."
+
+   Model: Model/PathUrl.v (go/bundle/cmd/gen-bundle/fromdir.go: convertPathToURL
+   puts the '/'-separated relative path into url.URL{Path: rel} and resolves it
+   against the base URL, so net/url percent-escapes it; http.ServeFile is
+   summarised by its contract), Model/UrlRef.v (what the bundle reader/writer
+   demand of an index key: url_ref u = ROk true false false, i.e. parses,
+   absolute, no fragment, no userinfo).
+   Proofs: Proofs/PathUrl{Escape,Base,Tree}.v.  Statements only here.
+
+   Part A  escape_path: invertible (hence injective), output alphabet, '%'
+           always followed by two hex digits, '/' kept and never created.
+   Part B  base_dir: exact shape of its answers (and converse), url_ref on
+           "directory URL ++ escaped path".
+   Part C  expected_exchanges: membership characterisation, index.html rules,
+           exactly one exchange per regular file, every URL accepted.
+   Part D  examples by vm_compute.
+
+   FINDINGS
+   - [dir_url_double_slash_refuted]: base_dir admits bases whose path begins
+     with "//" (plain_path_char allows '/'), e.g. https://h//x/y ; for these
+     url_ref answers RUnknown on the directory URL and on every file URL (path
+     starting "//" right after the authority is outside url_ref's decided
+     class).  The exact side condition is "dir does not begin with //",
+     equivalently [url_ref bd = ROk true false false] ([base_dir_url_ref] gives
+     the iff in both directions).  Go itself is fine there (ResolveReference
+     gives https://h//x/a.txt); the gap is in the decided class only.
+   - [leading_slash_refuted], [root_slash_refuted]: a relative path beginning
+     with '/' (cannot come out of filepath.Rel) or the root written with a
+     trailing slash leave the decided class when the base directory is "/".
+   - MODEL NOTE [base_dir_ex]: plain_path_char has no '.', so a base such as
+     https://example.com/site/page.html is outside base_dir's class (None) and
+     all theorems with the hypothesis [base_dir base = Some bd] say nothing
+     about it; the examples below use https://example.com/site/page .  (Go:
+     the last segment is dropped just the same, base dir = .../site/ .)
+   - MODEL DEVIATION [model_star_note]: Go's URL.EscapedPath() special-cases
+     Path == "*" and returns "*" unescaped (golang issue 11202).  So for the one
+     relative path "*" (a file called * in the root directory) gen-bundle emits
+     <base dir>* whereas the model's escape_path gives %2A.  (go1.23.5:
+     url.Parse("https://example.com/site/page.html").ResolveReference(
+     &url.URL{Path:"*"}).String() = "https://example.com/site/*" ; "sub/*" and
+     "a*" give %2A as modelled.)  Both URLs are accepted by url_ref; injectivity
+     is not endangered ("%2A" is the escape of no other name); the round trip
+     and all theorems below are about the model's escape_path. *)
+From Coq Require Import Lia.
+From WP Require Import Base.Prelude Model.Url Model.UrlRef Model.Cbor Model.PathUrl.
+From WP Require Import Proofs.BaseLemmas Proofs.PathUrlEscape Proofs.PathUrlBase Proofs.PathUrlTree.
 Open Scope N_scope.
 
-Theorem c20_smoke : escape_path (s2b "h#frag a?b%41.txt") = s2b "h%23frag%20a%3Fb%2541.txt".
+(* ======================= Part A : escape_path =========================== *)
+
+(* A1. unescaping the escaped path gives the path back: all byte strings *)
+Theorem escape_roundtrip (p : bytes) : wfb p -> unescape_path (escape_path p) = Some p.
+Proof. exact (PathUrlEscape.escape_roundtrip p). Qed.
+Print Assumptions escape_roundtrip.
+
+Theorem escape_injective (p q : bytes) :
+  wfb p -> wfb q -> escape_path p = escape_path q -> p = q.
+Proof. exact (PathUrlEscape.escape_injective p q). Qed.
+Print Assumptions escape_injective.
+
+Example escape_roundtrip_ex :
+  wfb (s2b "h#frag a?b%41.txt" ++ [195; 169; 255; 0]) /\
+  unescape_path (escape_path (s2b "h#frag a?b%41.txt" ++ [195; 169; 255; 0]))
+  = Some (s2b "h#frag a?b%41.txt" ++ [195; 169; 255; 0]).
+Proof. split; [apply wfbb_wfb|]; vm_compute; reflexivity. Qed.
+
+(* A2. the output: 7-bit, printable, no '#', '?', space, DEL; precisely, every
+   character is one that path_safe lets through (letters, digits,
+   - _ . ~ $ & + , / : ; = @) or '%'; every '%' is followed by two hex digits;
+   every character is one url.URL.String() leaves alone *)
+Theorem escape_clean (p : bytes) :
+  wfb p ->
+  Forall (fun c => c < 128 /\ c <> 35 (* # *) /\ c <> 63 (* ? *) /\ c <> 32 /\ 32 < c /\ c <> 127)
+         (escape_path p).
+Proof. exact (PathUrlEscape.escape_clean p). Qed.
+Print Assumptions escape_clean.
+
+Theorem escape_alphabet (p : bytes) :
+  wfb p -> Forall (fun c => path_safe c = true \/ c = 37) (escape_path p).
+Proof. exact (PathUrlEscape.escape_alphabet p). Qed.
+Print Assumptions escape_alphabet.
+
+Theorem path_safe_chars (c : N) :
+  path_safe c = true <->
+  is_alpha_u c = true \/ is_digit_u c = true \/
+  In c [45; 95; 46; 126; 36; 38; 43; 44; 47; 58; 59; 61; 64].
+Proof.
+  unfold path_safe. rewrite !orb_true_iff, existsb_exists. split.
+  - intros [[H|H]|[x [Hx E]]]; auto. apply N.eqb_eq in E. subst x. auto.
+  - intros [H|[H|H]]; auto. right. exists c. split; [exact H|apply N.eqb_refl].
+Qed.
+Print Assumptions path_safe_chars.
+
+Theorem escape_escapes_ok (p : bytes) : wfb p -> escapes_ok (escape_path p) = true.
+Proof. exact (PathUrlEscape.escape_escapes_ok p). Qed.
+Print Assumptions escape_escapes_ok.
+
+Theorem escape_stable (p : bytes) : wfb p -> forallb stable_char (escape_path p) = true.
+Proof. exact (PathUrlEscape.escape_stable p). Qed.
+Print Assumptions escape_stable.
+
+Theorem escape_no_ctl (p : bytes) : wfb p -> existsb is_ctl (escape_path p) = false.
+Proof. exact (PathUrlEscape.escape_no_ctl p). Qed.
+Print Assumptions escape_no_ctl.
+
+(* A3. '/' is never escaped, escaping works component by component, and an
+   escaped component contains no new '/' *)
+Theorem escape_app (a b : bytes) : escape_path (a ++ b) = escape_path a ++ escape_path b.
+Proof. exact (PathUrlEscape.escape_path_app a b). Qed.
+Print Assumptions escape_app.
+
+Theorem escape_preserves_slashes (a b : bytes) :
+  escape_path (a ++ [47] ++ b) = escape_path a ++ [47] ++ escape_path b.
+Proof. exact (PathUrlEscape.escape_preserves_slashes a b). Qed.
+Print Assumptions escape_preserves_slashes.
+
+Theorem escape_no_new_slash (p : bytes) : wfb p -> ~ In 47 p -> ~ In 47 (escape_path p).
+Proof. exact (PathUrlEscape.escape_no_new_slash p). Qed.
+Print Assumptions escape_no_new_slash.
+
+Example escape_no_new_slash_ex :
+  wfb (s2b "a b%2F") /\ ~ In 47 (s2b "a b%2F") /\ escape_path (s2b "a b%2F") = s2b "a%20b%252F".
+Proof.
+  split; [apply wfbb_wfb; reflexivity|]. split; [|reflexivity].
+  apply none_sat_not_in. reflexivity.
+Qed.
+
+(* ======================= Part B : base_dir, url_ref ===================== *)
+
+(* B1. what base_dir answers: lower(scheme) "://" authority dir, where the
+   scheme is what getScheme accepts (a letter, then letters/digits/+-.), the
+   authority is hostchars[":"digits], non-empty, and dir begins and ends with
+   '/' and consists of letters, digits, - _ ~ /.  dir is the base's path up to
+   its last '/', or "/" when the base has no path: the last segment is dropped. *)
+Theorem base_dir_shape (base bd : bytes) :
+  base_dir base = Some bd ->
+  exists sch auth dir,
+    bd = lower sch ++ s2b "://" ++ auth ++ dir /\
+    (forallb scheme_char sch = true /\ exists c t, sch = c :: t /\ is_alpha_u c = true) /\
+    authority_known auth = true /\ auth <> [] /\ ~ In 47 auth /\
+    ((exists d, dir = 47 :: d) /\ (exists d, dir = d ++ [47]) /\ forallb plain_path_char dir = true) /\
+    ((base = sch ++ s2b "://" ++ auth /\ dir = [47]) \/
+     (exists t, base = sch ++ s2b "://" ++ auth ++ dir ++ t /\ ~ In 47 t)).
+Proof. exact (PathUrlBase.base_dir_shape base bd). Qed.
+Print Assumptions base_dir_shape.
+
+(* ... and conversely *)
+Theorem base_dir_complete (sch auth dir t : bytes) :
+  (forallb scheme_char sch = true /\ exists c t, sch = c :: t /\ is_alpha_u c = true) ->
+  authority_known auth = true -> auth <> [] ->
+  ((exists d, dir = 47 :: d) /\ (exists d, dir = d ++ [47]) /\ forallb plain_path_char dir = true) ->
+  forallb plain_path_char t = true -> ~ In 47 t ->
+  base_dir (sch ++ s2b "://" ++ auth ++ dir ++ t) = Some (lower sch ++ s2b "://" ++ auth ++ dir).
+Proof. exact (PathUrlBase.base_dir_complete sch auth dir t). Qed.
+Print Assumptions base_dir_complete.
+
+Example base_dir_ex :
+  base_dir (s2b "HTTPS://example.com:8443/site/page") = Some (s2b "https://example.com:8443/site/") /\
+  base_dir (s2b "https://example.com/site/page.html") = None /\   (* '.' in the base path: see header *)
+  base_dir (s2b "https://example.com") = Some (s2b "https://example.com/") /\
+  base_dir (s2b "https://example.com/a/b/") = Some (s2b "https://example.com/a/b/") /\
+  base_dir (s2b "https://example.com/a.b/c") = None /\      (* '.' is outside the decided class *)
+  base_dir (s2b "https:///x") = None /\
+  base_dir (s2b "/relative") = None.
+Proof. vm_compute. repeat split. Qed.
+
+(* B2. url_ref on anything of that shape followed by stable characters with
+   well-formed escapes: all schemes, authorities with a port included *)
+Theorem url_ref_shape (sch auth d x : bytes) :
+  (forallb scheme_char sch = true /\ exists c t, sch = c :: t /\ is_alpha_u c = true) ->
+  authority_known auth = true -> auth <> [] ->
+  forallb plain_path_char d = true ->
+  forallb stable_char x = true -> escapes_ok x = true ->
+  url_ref (lower sch ++ s2b "://" ++ auth ++ (47 :: d) ++ x) =
+  if starts47 (d ++ x) then RUnknown else ROk true false false.
+Proof. exact (PathUrlBase.url_ref_shape sch auth d x). Qed.
+Print Assumptions url_ref_shape.
+
+(* B3. base_dir's answer and url_ref's verdict on it: accepted unless dir
+   begins with "//", in which case (and only then) RUnknown *)
+Theorem base_dir_url_ref (base bd : bytes) :
+  base_dir base = Some bd ->
+  exists sch auth dir,
+    bd = lower sch ++ s2b "://" ++ auth ++ dir /\
+    (forallb scheme_char sch = true /\ exists c t, sch = c :: t /\ is_alpha_u c = true) /\
+    authority_known auth = true /\ auth <> [] /\ ~ In 47 auth /\
+    ((exists d, dir = 47 :: d) /\ (exists d, dir = d ++ [47]) /\ forallb plain_path_char dir = true) /\
+    (url_ref bd = ROk true false false <-> (forall t, dir <> 47 :: 47 :: t)) /\
+    (url_ref bd = RUnknown <-> (exists t, dir = 47 :: 47 :: t)).
+Proof. exact (PathUrlBase.base_dir_url_ref base bd). Qed.
+Print Assumptions base_dir_url_ref.
+
+(* B4. the index keys gen-bundle produces are what the bundle reader demands:
+   for the base directory URL in the decided class, every wfb relative path
+   not beginning with '/' gives an accepted file URL and directory URL *)
+Theorem dir_url_accepted (base bd r : bytes) :
+  base_dir base = Some bd ->
+  url_ref bd = ROk true false false ->
+  wfb r -> (forall t, r <> 47 :: t) ->
+  url_ref (bd ++ escape_path r) = ROk true false false /\
+  (r <> [] -> url_ref (bd ++ escape_path r ++ [47]) = ROk true false false).
+Proof. exact (PathUrlBase.dir_url_accepted base bd r). Qed.
+Print Assumptions dir_url_accepted.
+
+Example dir_url_accepted_ex :
+  let base := s2b "https://example.com:8443/site/page" in
+  let bd := s2b "https://example.com:8443/site/" in
+  let r := s2b "sub dir/h#frag?.txt" ++ [195; 169] in
+  base_dir base = Some bd /\ url_ref bd = ROk true false false /\
+  wfb r /\ (forall t, r <> 47 :: t) /\
+  bd ++ escape_path r = s2b "https://example.com:8443/site/sub%20dir/h%23frag%3F.txt%C3%A9" /\
+  url_ref (bd ++ escape_path r) = ROk true false false.
+Proof.
+  cbv zeta. split; [reflexivity|]. split; [reflexivity|].
+  split; [apply wfbb_wfb; reflexivity|]. split; [intros t E; discriminate E|].
+  split; reflexivity.
+Qed.
+
+(* the unescaped name would not do: '#' starts a fragment, which the reader rejects *)
+Example unescaped_name_rejected :
+  url_ref (s2b "https://example.com/site/h#frag.txt") = ROk true true false.
 Proof. reflexivity. Qed.
-Print Assumptions c20_smoke.
+
+(* corner cases that fall outside url_ref's decided class *)
+Theorem dir_url_double_slash_refuted :
+  exists base bd r,
+    base_dir base = Some bd /\ wfb r /\ (forall t, r <> 47 :: t) /\
+    url_ref bd = RUnknown /\ url_ref (bd ++ escape_path r) = RUnknown.
+Proof.
+  exists (s2b "https://h//x/y"), (s2b "https://h//x/"), (s2b "a.txt").
+  split; [reflexivity|]. split; [apply wfbb_wfb; reflexivity|].
+  split; [intros t E; discriminate E|]. split; reflexivity.
+Qed.
+Print Assumptions dir_url_double_slash_refuted.
+
+Theorem leading_slash_refuted :
+  exists base bd r,
+    base_dir base = Some bd /\ url_ref bd = ROk true false false /\ wfb r /\
+    url_ref (bd ++ escape_path r) = RUnknown.
+Proof.
+  exists (s2b "https://h/"), (s2b "https://h/"), (s2b "/a").
+  split; [reflexivity|]. split; [reflexivity|]. split; [apply wfbb_wfb; reflexivity|reflexivity].
+Qed.
+Print Assumptions leading_slash_refuted.
+
+Theorem root_slash_refuted :
+  exists base bd,
+    base_dir base = Some bd /\ url_ref bd = ROk true false false /\
+    url_ref (bd ++ escape_path [] ++ [47]) = RUnknown.
+Proof.
+  exists (s2b "https://h/"), (s2b "https://h/"). repeat split.
+Qed.
+Print Assumptions root_slash_refuted.
+
+(* ======================= Part C : the exchanges ========================== *)
+(* PathUrlTree.dir_url bd rel   = bd for the root (rel = []), else bd ++ escape_path rel ++ "/"
+   PathUrlTree.index_path d     = "index.html" for the root, else d ++ "/index.html"
+   PathUrlTree.ex_url (u, s, b) = u *)
+
+(* C1. (a) a regular file not named index.html: (URL, 200, its bytes);
+       (b) a regular file named index.html: (its URL, 301, no body);
+       (c) a directory that directly contains a regular file index.html:
+           (slash URL, 200, that file's bytes);
+       (d) nothing else *)
+Theorem expected_exchanges_spec (base bd : bytes) (tree : list fentry) (xs : list (bytes * Z * bytes)) :
+  expected_exchanges base tree = Some xs -> base_dir base = Some bd ->
+  forall x, In x xs <->
+    (exists f, In f tree /\ f_dir f = false /\ basename (f_rel f) [] <> index_html /\
+               x = (bd ++ escape_path (f_rel f), 200%Z, f_content f)) \/
+    (exists f, In f tree /\ f_dir f = false /\ basename (f_rel f) [] = index_html /\
+               x = (bd ++ escape_path (f_rel f), 301%Z, [])) \/
+    (exists f content, In f tree /\ f_dir f = true /\ dir_index tree (f_rel f) = Some content /\
+               x = (dir_url bd (f_rel f), 200%Z, content)).
+Proof. exact (PathUrlTree.expected_exchanges_spec base bd tree xs). Qed.
+Print Assumptions expected_exchanges_spec.
+
+(* when there is an answer at all *)
+Theorem expected_exchanges_defined (base : bytes) (tree : list fentry) (xs : list (bytes * Z * bytes)) :
+  expected_exchanges base tree = Some xs <->
+  exists bd, base_dir base = Some bd /\
+             (forall f, In f tree -> has_dotdot_elem (f_rel f) [] = false /\ utf8_valid (f_rel f) = true) /\
+             xs = flat_map (contrib bd tree) tree.
+Proof. exact (PathUrlTree.expected_unfold base tree xs). Qed.
+Print Assumptions expected_exchanges_defined.
+
+(* C2. dir_index: the content is that of a regular file at d/index.html; with
+   distinct relative paths, of THE regular file there *)
+Theorem dir_index_sound (tree : list fentry) (d content : bytes) :
+  dir_index tree d = Some content ->
+  exists g, In g tree /\ f_dir g = false /\ f_rel g = index_path d /\ f_content g = content.
+Proof. exact (PathUrlTree.dir_index_sound tree d content). Qed.
+Print Assumptions dir_index_sound.
+
+Theorem dir_index_complete (tree : list fentry) (d : bytes) (g : fentry) :
+  NoDup (map f_rel tree) ->
+  In g tree -> f_dir g = false -> f_rel g = index_path d ->
+  dir_index tree d = Some (f_content g).
+Proof. exact (PathUrlTree.dir_index_complete tree d g). Qed.
+Print Assumptions dir_index_complete.
+
+(* that file is itself "named index.html" (so its own exchange is the 301 of
+   (b)), and its own URL is the directory's slash URL ++ "index.html" *)
+Theorem index_file_named_index (d : bytes) : basename (index_path d) [] = index_html.
+Proof. exact (PathUrlTree.index_path_basename d). Qed.
+Print Assumptions index_file_named_index.
+
+Theorem index_file_url (bd d : bytes) :
+  bd ++ escape_path (index_path d) = dir_url bd d ++ index_html.
+Proof. exact (PathUrlTree.index_file_url bd d). Qed.
+Print Assumptions index_file_url.
+
+(* C3. (e) distinct relative paths give distinct file URLs *)
+Theorem file_urls_injective (bd p q : bytes) :
+  wfb p -> wfb q -> bd ++ escape_path p = bd ++ escape_path q -> p = q.
+Proof. exact (PathUrlTree.file_urls_injective bd p q). Qed.
+Print Assumptions file_urls_injective.
+
+Theorem file_urls_nodup (bd : bytes) (tree : list fentry) :
+  NoDup (map f_rel tree) -> (forall f, In f tree -> wfb (f_rel f)) ->
+  NoDup (map (fun f => bd ++ escape_path (f_rel f)) (filter (fun f => negb (f_dir f)) tree)).
+Proof. exact (PathUrlTree.file_urls_nodup bd tree). Qed.
+Print Assumptions file_urls_nodup.
+
+(* relative paths as filepath.Walk/Rel produce them *)
+Definition tree_ok (tree : list fentry) : Prop :=
+  NoDup (map f_rel tree) /\
+  forall f, In f tree -> (forall t, f_rel f <> t ++ [47]) /\ (f_dir f = false -> f_rel f <> []).
+
+(* all URLs of the bundle are pairwise distinct (files and directories) *)
+Theorem expected_urls_nodup (base : bytes) (tree : list fentry) (xs : list (bytes * Z * bytes)) :
+  expected_exchanges base tree = Some xs -> tree_ok tree ->
+  NoDup (map (fun x => fst (fst x)) xs).
+Proof. exact (PathUrlTree.expected_urls_nodup base tree xs). Qed.
+Print Assumptions expected_urls_nodup.
+
+(* exactly one exchange per regular file: it sits at one position of the list
+   and no other exchange has its URL *)
+Theorem exactly_one_exchange_per_file
+        (base bd : bytes) (tree : list fentry) (xs : list (bytes * Z * bytes)) (f : fentry) :
+  expected_exchanges base tree = Some xs -> base_dir base = Some bd -> tree_ok tree ->
+  In f tree -> f_dir f = false ->
+  exists l1 x l2,
+    xs = l1 ++ x :: l2 /\
+    x = (if bytes_eqb (basename (f_rel f) []) index_html
+         then (bd ++ escape_path (f_rel f), 301%Z, [])
+         else (bd ++ escape_path (f_rel f), 200%Z, f_content f)) /\
+    (forall y, In y (l1 ++ l2) -> fst (fst y) <> bd ++ escape_path (f_rel f)).
+Proof. exact (PathUrlTree.exactly_one_exchange_per_file base bd tree xs f). Qed.
+Print Assumptions exactly_one_exchange_per_file.
+
+(* C4. no file name makes gen-bundle emit a URL the reader rejects: whenever
+   the model answers (names are valid UTF-8 without ".." elements), every URL
+   is accepted *)
+Theorem expected_urls_accepted (base bd : bytes) (tree : list fentry) (xs : list (bytes * Z * bytes)) :
+  expected_exchanges base tree = Some xs -> base_dir base = Some bd ->
+  url_ref bd = ROk true false false ->
+  (forall f, In f tree -> forall t, f_rel f <> 47 :: t) ->
+  Forall (fun x => url_ref (fst (fst x)) = ROk true false false) xs.
+Proof. exact (PathUrlTree.expected_urls_accepted base bd tree xs). Qed.
+Print Assumptions expected_urls_accepted.
+
+(* ======================= Part D : examples =============================== *)
+Definition file (name content : string) : fentry :=
+  {| f_rel := s2b name; f_dir := false; f_content := s2b content |}.
+Definition dir (name : string) : fentry :=
+  {| f_rel := s2b name; f_dir := true; f_content := [] |}.
+
+Definition base_ex : bytes := s2b "https://example.com/site/page".
+
+(* awkward names; the base's last path segment (page) is dropped *)
+Definition names_tree : list fentry :=
+  [ dir ""; file "h#frag.txt" "1"; file "a?b" "2"; file "p%41" "3"; file "b c.html" "4";
+    {| f_rel := [195; 169] ++ s2b ".txt"; f_dir := false; f_content := s2b "5" |};   (* e-acute *)
+    file "x:y" "6" ].
+
+Example names_exchanges :
+  expected_exchanges base_ex names_tree =
+  Some [ (s2b "https://example.com/site/h%23frag.txt", 200%Z, s2b "1");
+         (s2b "https://example.com/site/a%3Fb", 200%Z, s2b "2");
+         (s2b "https://example.com/site/p%2541", 200%Z, s2b "3");
+         (s2b "https://example.com/site/b%20c.html", 200%Z, s2b "4");
+         (s2b "https://example.com/site/%C3%A9.txt", 200%Z, s2b "5");
+         (s2b "https://example.com/site/x:y", 200%Z, s2b "6") ].
+Proof. vm_compute. reflexivity. Qed.
+
+Example names_accepted :
+  match expected_exchanges base_ex names_tree with
+  | Some xs => forallb (fun x => match url_ref (fst (fst x)) with ROk true false false => true | _ => false end) xs
+  | None => false
+  end = true.
+Proof. vm_compute. reflexivity. Qed.
+
+(* root index.html and sub/index.html *)
+Definition index_tree : list fentry :=
+  [ dir ""; file "index.html" "ROOT"; dir "empty"; dir "sub";
+    file "sub/a.txt" "A"; file "sub/index.html" "SUB" ].
+
+Example index_exchanges :
+  expected_exchanges base_ex index_tree =
+  Some [ (s2b "https://example.com/site/", 200%Z, s2b "ROOT");
+         (s2b "https://example.com/site/index.html", 301%Z, []);
+         (s2b "https://example.com/site/sub/", 200%Z, s2b "SUB");
+         (s2b "https://example.com/site/sub/a.txt", 200%Z, s2b "A");
+         (s2b "https://example.com/site/sub/index.html", 301%Z, []) ].
+Proof. vm_compute. reflexivity. Qed.
+
+(* the hypotheses of C3/C4 hold of that tree *)
+Example index_tree_ok : tree_ok index_tree.
+Proof.
+  split.
+  - repeat constructor; cbn [In map index_tree f_rel dir file];
+      intros H; repeat (destruct H as [H|H]; [vm_compute in H; discriminate H|]); exact H.
+  - intros f Hf. cbn [In index_tree] in Hf.
+    repeat (destruct Hf as [Hf|Hf];
+            [subst f; split;
+             [intros t E; apply (f_equal (@rev N)) in E; rewrite rev_app_distr in E;
+              vm_compute in E; discriminate E
+             |intros E; try discriminate E; intros E'; discriminate E']|]).
+    destruct Hf.
+Qed.
+
+Example index_tree_rel_ok : forall f, In f index_tree -> forall t, f_rel f <> 47 :: t.
+Proof.
+  intros f Hf t E. cbn [In index_tree] in Hf.
+  repeat (destruct Hf as [Hf|Hf]; [subst f; vm_compute in E; discriminate E|]). destruct Hf.
+Qed.
+
+(* names outside the decided domain: http.ServeFile refuses ".." elements,
+   http.Dir refuses names that are not UTF-8 *)
+Example dotdot_undecided : expected_exchanges base_ex [dir ""; file "a/../b" "x"] = None.
+Proof. reflexivity. Qed.
+Example non_utf8_undecided :
+  expected_exchanges base_ex [dir ""; {| f_rel := [255]; f_dir := false; f_content := [] |}] = None.
+Proof. reflexivity. Qed.
+
+(* the model's escape of the one-character path "*" (Go gives "*", see header) *)
+Example model_star_note : escape_path (s2b "*") = s2b "%2A" /\ escape_path (s2b "sub/*") = s2b "sub/%2A".
+Proof. split; reflexivity. Qed.
